@@ -49,9 +49,12 @@ Fixpoint spec_residues (vs : list bits) (rfs : list rfd) : option bits :=
   | _, _ => Some []
   end.
 
-(* C02: rule id, residues in rule order, payload -- and nothing else *)
+(* C02: rule id, residues in rule order, payload -- and nothing else.  None: the rule cannot lay out
+   the packet (a residue is undefined; or the rule is a fragmentation rule: RFC 8724 section 7 gives
+   no compressed-packet layout for it.  What the code does then is SchcCodec.compress_fragmentation) *)
 Definition layout (pd : pdesc) (r : rule) (d : option dir) : option bits :=
   match rule_nature r with
+  | Fragmentation => None
   | NoCompression => Some (rule_id r ++ concat (map f_val (pd_fields pd)) ++ pd_payload pd)
   | Compression =>
     match spec_residues (map f_val (pd_fields pd)) (select_fds d (rule_fds r)) with
@@ -86,6 +89,7 @@ Definition spec_rule_applies (pd : pdesc) (r : rule) : bool :=
   match rule_nature r with
   | NoCompression => true
   | Compression => forallb2 spec_field_applies (pd_fields pd) (filter (applies (pd_dir pd)) (rule_fds r))
+  | Fragmentation => false            (* a fragmentation rule never applies to a packet to compress *)
   end.
 
 (* the target value has the type its matching operator and action expect (the library asserts it) *)
